@@ -73,7 +73,7 @@ def run(chk: Check) -> None:
             chk.ob("R11.1", "%s:%s(_nxg)" % (f.qualname, kind), ok, f.loc(n),
                    "%s uses the edge multigraph as '%s': only CFG.__init__ creates it and only "
                    "add/discard/clear may mutate it" % (f.qualname, kind), 1)
-    chk.floor("R11.1", "uses of _nxg", n_uses, 12)
+    chk.floor("R11.1", "uses of _nxg", n_uses, 8)
     for f in list(cfgc.methods.values()) + [x for p in cfgc.props.values() for x in (p.getter, p.setter) if x]:
         for n in walk_no_nested(f.node):
             if isinstance(n, (ast.Assign, ast.AugAssign, ast.AnnAssign)):
@@ -375,7 +375,7 @@ def run(chk: Check) -> None:
                 ok = bool(notnone) and fl.path_avoiding(fl.entry, cn, notnone) is None
                 chk.ob("R11.4", key + ":detached-is-empty", ok, g.loc(),
                        "%s must be empty for a block that belongs to no IR" % key, 2)
-    chk.floor("R11.4", "block edge properties", n_sib, 4)
+    chk.floor("R11.4", "block edge properties", n_sib, 3)
 
     # R11.5 -----------------------------------------------------------------
     for cname in ("Edge", "EdgeLabel"):
@@ -402,6 +402,14 @@ def _yields_edge_in_order(f) -> bool:
                         (dotted(y.value.func) or ("",))[-1] == "Edge":
                     args = [a.id if isinstance(a, ast.Name) else None for a in y.value.args]
                     return args == names and not y.value.keywords
+        if isinstance(n, ast.For) and isinstance(n.target, ast.Name):
+            # for t in <view>: yield Edge(*t)   (the triple passed on whole)
+            for y in ast.walk(n):
+                if isinstance(y, ast.Yield) and isinstance(y.value, ast.Call) and \
+                        (dotted(y.value.func) or ("",))[-1] == "Edge" and len(y.value.args) == 1 and \
+                        isinstance(y.value.args[0], ast.Starred) and \
+                        attr_path(y.value.args[0].value) == (n.target.id,) and not y.value.keywords:
+                    return True
     return False
 
 
